@@ -1154,7 +1154,9 @@ class PyCdlib:
 
                 if is_dir:
                     if new_record.rock_ridge is not None and new_record.rock_ridge.relocated_record():
-                        self._rr_moved_record = new_record
+                        # A relocated directory lives in the relocation
+                        # directory (RR_MOVED); that is the one to remember.
+                        self._rr_moved_record = dir_record
 
                     if new_record.is_dotdot() and new_record.rock_ridge is not None and new_record.rock_ridge.parent_link_record_exists():
                         # Make sure to mark a dotdot record with a parent link
